@@ -16,7 +16,7 @@ ENV.pop("GOWORK", None)
 
 def sh(cmd, cwd, timeout=600):
     try:
-        p = subprocess.run(cmd, shell=True, cwd=cwd, env=ENV, stdout=subprocess.PIPE, stderr=subprocess.STDOUT, timeout=timeout, text=True)
+        p = subprocess.run(cmd, shell=True, cwd=cwd, env=ENV, stdout=subprocess.PIPE, stderr=subprocess.STDOUT, timeout=timeout, text=True, errors="replace")
         return p.returncode, p.stdout
     except subprocess.TimeoutExpired as e:
         return 124, (e.stdout or "") + "\nTIMEOUT"
